@@ -294,7 +294,7 @@ Proof.
 Qed.
 
 (* the side condition is the one of numbers_cleanup_stream: with a cleanup strategy the suffix is not "gz" (and does not end
-   with ".gz") and at most 100000 files are closed *)
+   with ".gz") *)
 Theorem numbers_cleanup_no_panic c crit k t0 off ops :
   numkcfg c crit k -> Forall basic_op ops ->
   kside c k (nclosed (a_run None ops (snd (run (fst (step (sys0 t0 off) (OStart c))) ops)))) ->
@@ -324,7 +324,7 @@ Example numbers_cleanup_no_panic_instance :
   Forall obs_ok (snd (run (sys0 0 0) (OStart (ex_cfg (KLogGz 1 1) log_sfx) :: ex_ops ++ [OStop]))).
 Proof.
   apply (numbers_cleanup_no_panic _ (CSize 3) (KLogGz 1 1)); [apply ex_numkcfg | exact ex_ops_basic|].
-  split; [exact ex_sfx_ok | vm_compute; discriminate].
+  exact ex_sfx_ok.
 Qed.
 
 Example timestamps_no_panic_instance :
